@@ -3,7 +3,7 @@
 use std::collections::BTreeSet;
 
 use crate::session::Session;
-use crate::util::Rng;
+use crate::util::{Rng, hex};
 
 const W: u64 = 8128;
 
@@ -37,6 +37,59 @@ fn history(s: &mut Session, kind: &str, ids: &[u64], limit: u64) {
     }
     if acc > 0 && rej > 0 {
         s.mark_nontrivial();
+    }
+}
+
+/// the filter where it is used: the client's datagram codec fed histories of replies — own session and foreign
+/// sessions mixed, duplicates, stale ids, far jumps.  Oracle = the property itself: a reply is delivered iff it is
+/// of this session, not delivered before, and at most 8128 behind the highest delivered id; whatever was refused
+/// (duplicate, stale, foreign) changes nothing for the packets that follow.
+fn codec_histories(s: &mut Session, rng: &mut Rng, thorough: bool) {
+    use crate::c02::timed;
+    use crate::gen_ss::*;
+    for cipher in CIPHERS {
+        if !is2022(cipher) {
+            continue;
+        }
+        for round in 0..if thorough { 6 } else { 1 } {
+            s.begin_case(&format!("codec-history:{}:{}", cipher, round));
+            let cfg = random_cfg(rng, cipher, false);
+            let (uc, us) = (s.fresh("uc"), s.fresh("us"));
+            s.run(&format!("ssu.client {} cipher={} password={}", uc, cipher, cfg.client_password));
+            s.run(&format!("ssu.server {} cipher={} password={} users=-", us, cipher, cfg.server_password));
+            let csid = 1 + rng.below(1 << 50);
+            s.run(&format!("ssu.setid {} csid={}", uc, csid));
+            let ssid = rng.next();
+            let mut seen = std::collections::HashSet::new();
+            let mut highest: Option<u64> = None;
+            let mut base = rng.below(1 << 20);
+            for step in 0..if thorough { 120 } else { 40 } {
+                let foreign = rng.chance(1, 4);
+                let pid = match rng.below(10) {
+                    0 => { base += 8100 + rng.below(60); base }                 // around one window ahead
+                    1 => { base += 20000 + rng.below(1 << 30); base }           // far jump
+                    2 => base.saturating_sub(8120 + rng.below(20)),             // around the stale edge
+                    3 if foreign => base + (1 << 40),                           // a far foreign id
+                    _ => base.saturating_sub(rng.below(40)) + rng.below(30),    // near the top, many repeats
+                };
+                let sid = if foreign { csid ^ (1 + rng.below(1 << 20)) } else { csid };
+                let w = timed(s, &format!("ssu.senc {} csid={} ssid={} pid={} addr=4:01020304:53 payload={}", us, sid, ssid, pid, hex(&rng.bytes(3))));
+                let r = timed(s, &format!("ssu.cdec {} {}", uc, w));
+                let want = !foreign && !seen.contains(&pid) && highest.map(|h| pid > h || h - pid <= 8128).unwrap_or(true);
+                if r.starts_with("ok") != want || r.starts_with("err") || r.starts_with("panic") {
+                    s.oracle_fail("codec-window", &format!("step {}: reply with id {} of {} session (highest delivered {:?}, delivered before: {}) was {}", step, pid, if foreign { "a foreign" } else { "the own" }, highest, seen.contains(&pid), &r[..r.len().min(12)]));
+                    break;
+                }
+                if want {
+                    seen.insert(pid);
+                    highest = Some(highest.map(|h| h.max(pid)).unwrap_or(pid));
+                }
+                if !foreign && pid > base {
+                    base = pid;
+                }
+            }
+            s.mark_nontrivial();
+        }
     }
 }
 
@@ -109,4 +162,5 @@ pub fn generate(s: &mut Session, tier: &str, rng: &mut Rng) {
         let limit = if rng.chance(1, 4) { cur.saturating_sub(rng.below(100)) } else { top };
         history(s, "walk", &ids, limit);
     }
+    codec_histories(s, rng, tier == "thorough");
 }
